@@ -6,7 +6,7 @@ from ..world import all_eq, as_int, lnot, blist
 PROPERTY = 'C15'
 BUDGET = {'quick': {'seconds': 1500, 'xreplay_every': 50}, 'thorough': {'seconds': 6000, 'xreplay_every': 1000}}
 NONTRIVIAL = {'quick': ['pingreq-due', 'pingreq-written', 'abort-on-silence', 'answered-in-time', 'duplicate-pingresp', 'unsolicited-pingresp',
-                        'k0-silent', 'loss', 'reconnected', 'other-traffic']}
+                        'k0-silent', 'loss', 'reconnected', 'other-traffic', 'other-address']}
 
 EVENTS = ('none', 'PINGRESP', 'PINGRESP2', 'publish0', 'inbound', 'LOSS')
 
@@ -24,10 +24,18 @@ def pingreqs(flow, c):
 
 def h_keepalive(eng, params):
     k = params['keepalive']
-    flow = Flow(eng, params['profile'], keepalive=k)
+    flow = Flow(eng, params['profile'], keepalive=k, naddr=2 if params.get('other') else 1)
     w = flow.w
     flow.open()
     c = flow.c
+    if params.get('other'):
+        # a second protocol of the same factory, for another broker address, connects (keepalive off) while the
+        # first one has its PINGREQ in flight; it stays connected and silent
+        flow.keepalive = 0
+        flow.open(ai=1)
+        flow.keepalive = k
+        flow.c = c
+        eng.count('other-address')
     t_connack = w.now()
     unanswered = []           # times of PINGREQs not yet followed by a PINGRESP
     answered_all_in_time = True
@@ -137,13 +145,16 @@ def shards(tier):
             for reconnect in (False, True):
                 for first in EVENTS:
                     out.append(('keepalive', {'profile': profile, 'keepalive': k, 'm': 6 if T else 4, 'reconnect': reconnect, 'first': first}))
+            if profile == 'pubsubs' and k in (1, 5):
+                for first in EVENTS:
+                    out.append(('keepalive', {'profile': profile, 'keepalive': k, 'm': 4 if T else 3, 'reconnect': False, 'first': first, 'other': True}))
     return out
 
 
 META = {
     'rule': 'keepalive k concrete, virtual time symbolic: after CONNACK m rounds of advance(dt symbolic in [0,3k]) followed by one of {nothing, PINGRESP, two PINGRESP, '
             'QoS 0 publish, inbound QoS 0 PUBLISH, loss (+ reconnect)}; the real LoopingCall runs on the real Clock; obligations are comparisons between symbolic instants',
-    'bounds': {'quick': 'k in {0, 1, 5, 60}; m=4 rounds; pubsubs (all k), publisher and subscriber (k in {0,5})', 'thorough': 'k in {0, 1, 2, 5, 60, 65535}; m=6'},
+    'bounds': {'quick': 'k in {0, 1, 5, 60}; m=4 rounds (m=3 with a second protocol of the same factory connected to another address, keepalive off); pubsubs (all k), publisher and subscriber (k in {0,5})', 'thorough': 'k in {0, 1, 2, 5, 60, 65535}; m=6'},
     'stubs': ['fake transport with asynchronous loss', 'twisted task.Clock and the real twisted LoopingCall bound to it', 'jitter: fixed sequence'],
     'outside': ['keepalive values other than the listed ones (the loop arithmetic t mod k is linear only for concrete k)', 'advances longer than 3k in one step', 'float rounding'],
     'assumptions': ['timers never fire early; an advance may carry time past a due instant (late firing), so "at least every k seconds" is checked as: whenever an '
